@@ -4,6 +4,7 @@ import Midgard.Model.H5Dataset
 import Midgard.Model.H5Meta
 import Midgard.Model.H5Bits
 import Midgard.Model.H5Time
+import Midgard.Model.H5AttrText
 
 /-!
 Driver for C10.
@@ -357,6 +358,13 @@ def parseTimeAttr (w : W) (x : DS) (t : String) : Option (Nat × Nat) :=
   | _ => none
 
 def handle : List String → Option String
+  | ["c10", "dispatch", hx] => do
+    -- what `decode_h5attr` does with the text: a string, an empty container, or `_literal_eval` of a text
+    let t ← decodeHex? hx
+    match dispatchText t.toList with
+    | .str s => pure ("S" ++ encodeHex (String.ofList s))
+    | .empty tag => pure ("E:" ++ tag)
+    | .eval r => pure ("P" ++ encodeHex (String.ofList r))
   | "c10" :: "rtx" :: units :: rest => do
     -- `<ops> | X <pos path>=<ref> … | write d lvl`: positions with a `time` attached
     let us ← parseUnits? units
